@@ -44,6 +44,7 @@ type Interp struct {
 	tier  int
 	spec  *HarnessSpec
 	curIf *ssa.If
+	luts  map[*Term]*lutRec
 }
 
 func NewInterp(prog *ssa.Program, ex *Explorer) *Interp {
@@ -54,6 +55,7 @@ func (in *Interp) reset() {
 	in.globals = map[*ssa.Global]*V{}
 	in.inited = map[*ssa.Package]bool{}
 	in.steps = 0
+	in.luts = nil
 }
 
 // ---- helpers for Int/Bool construction ----
@@ -607,6 +609,13 @@ func (in *Interp) unop(fr *frame, x *ssa.UnOp) V {
 	v := in.get(fr, x.X)
 	switch x.Op {
 	case token.MUL: // load
+		if sr, ok := v.(SymRef); ok {
+			r, ok := in.symLoad(sr.idx, sr.elems)
+			if !ok {
+				panic(unsupported("symbolic element load"))
+			}
+			return r
+		}
 		p := v.(Ptr)
 		if p == nil {
 			panic(goPanic{Str{S: "nil pointer dereference in " + fr.fn.String()}})
